@@ -75,6 +75,10 @@ def plan(tier, seed):
     # (samples that wait in the queue with equal tentative costs, one of them improved later)
     for a, b in E.chunks(E.n_graphs(6, 2), 1024):
         shards.append(("g6", a, b))
+    # a "metric" whose self-distance is not 0 (gaussian: d(x, x) = 1 is its largest value); queries
+    # include copies of the training samples
+    for a, b in E.chunks(E.n_sequences(4, 4), 64):
+        shards.append(("feat", "1d", 4, "gaussian", a, b))
     # ordinary lattice data at a tiny scale (every distance far below 1e-8)
     for mt in ("squared_euclidean", "log_squared_euclidean"):
         for a, b in E.chunks(E.n_sequences(4, 4), 64):
@@ -293,7 +297,21 @@ def learn_case(prog, res=None, chooser=None):
     ch = chooser if chooser is not None else seams.Chooser(prog["script"], 0)
     Xt = np.array(cfg["Xt"], dtype=float).reshape(-1, 1)
     o = SupervisedOPF("euclidean")
-    with c17.own_rng(ch):
+    import contextlib
+    import opfython.math.general as g
+    script = cfg.get("acc_script")
+    ctx = contextlib.nullcontext()
+    if script is not None:
+        # the validation accuracy of each iteration is an environment answer served from the script
+        # (so that the best iteration need not be the last one)
+        n_acc = [0]
+
+        def acc(labels, preds, *more, **kw):
+            a = float(script[min(n_acc[0], len(script) - 1)])
+            n_acc[0] += 1
+            return a
+        ctx = seams.patched(g, "opf_accuracy", acc)
+    with c17.own_rng(ch), ctx:
         try:
             o.learn(Xt, np.array(cfg["Yt"], dtype=int), np.array(cfg["Xv"], dtype=float).reshape(-1, 1),
                     np.array(cfg["Yv"], dtype=int), n_iterations=cfg["iters"])
@@ -397,7 +415,10 @@ def run_special(shard, seed, res):
     if shard[0] == "learn":
         from mc.explore import explore
         from mc.props import c17
-        for cfg in c17.learn_configs(3, shard[1], seed):
+        cfgs = list(c17.learn_configs(3, shard[1], seed))
+        if shard[1] % 8 == 0:
+            cfgs += list(c17.scripted_configs(shard[1], seed, 0, 3))
+        for cfg in cfgs:
             found = []
 
             def execute(ch):
